@@ -466,6 +466,10 @@ func dbgCfg(variant string, hist bool, maxCmds int, invs ...string) string {
 	fmt.Fprintf(&b, "SPECIFICATION Spec\nCONSTANTS Variant = \"%s\" RecordHist = %s MaxCmds = %d\nCONSTANT Threads <- RThreads\nCONSTANT Prog <- RProg\nCONSTANT Lines <- RLines\nCHECK_DEADLOCK FALSE\n",
 		variant, strings.ToUpper(strconv.FormatBool(hist)), maxCmds)
 	for _, inv := range invs {
+		if inv == "StopReleasesAll" { // an action property
+			fmt.Fprintf(&b, "PROPERTY %s\n", inv)
+			continue
+		}
 		fmt.Fprintf(&b, "INVARIANT %s\n", inv)
 	}
 	return b.String()
@@ -589,9 +593,24 @@ func runObserved(src string, debug bool, rng *rand.Rand, bps []int, events int) 
 			erp.Processor.Finish()
 		}
 	}()
-	select {
-	case <-done:
-	case <-time.After(20 * time.Second):
+	// the run is stuck when it has not ended and the client has not continued anything for ten seconds (a slow
+	// machine makes a debugged run slow, not stuck); after five minutes the run is given up as inconclusive
+	ended, last, lastChange, begin := false, int64(-1), time.Now(), time.Now()
+	for !ended {
+		select {
+		case <-done:
+			ended = true
+		case <-time.After(500 * time.Millisecond):
+			if c := atomic.LoadInt64(&conts); c != last {
+				last, lastChange = c, time.Now()
+			}
+		}
+		if !ended && (time.Since(lastChange) > 10*time.Second || time.Since(begin) > 5*time.Minute) {
+			break
+		}
+	}
+	if !ended {
+		tooLong := time.Since(lastChange) <= 10*time.Second
 		close(stop)
 		// the client itself may be stuck inside a command: neither it nor the clean-up is waited for without bound
 		cleaned := make(chan struct{})
@@ -610,6 +629,9 @@ func runObserved(src string, debug bool, rng *rand.Rand, bps []int, events int) 
 		case <-cleaned:
 		case <-time.After(3 * time.Second):
 			why += " (a debugger command of the client does not return)"
+		}
+		if tooLong {
+			why = "inconclusive: " + why + " and was still continuing after five minutes"
 		}
 		return nil, why
 	}
@@ -667,9 +689,9 @@ func C15(r *ev.Run) {
 	//    of the pinned code is refuted (lost wake-up, breakpoints ignored while stepping over)
 	cmds := pick(tier, 4, 5)
 	jobs := []*MCJob{
-		{Name: "code", Files: map[string]string{"MCDbgRun.tla": mod1, "run.cfg": dbgCfg("code", false, cmds, "TypeOK", "NoLostWakeup", "ReportedIsSuspended", "BreakpointsSuspend")},
+		{Name: "code", Files: map[string]string{"MCDbgRun.tla": mod1, "run.cfg": dbgCfg("code", false, cmds, "TypeOK", "NoLostWakeup", "ReportedIsSuspended", "BreakpointsSuspend", "StopReleasesAll")},
 			Opt: tlc.Options{Module: "MCDbgRun", Config: "run.cfg", Timeout: 30 * time.Minute}},
-		{Name: "code-2threads", Files: map[string]string{"MCDbgRun.tla": mod2, "run.cfg": dbgCfg("code", false, pick(tier, 2, 3), "TypeOK", "NoLostWakeup", "ReportedIsSuspended", "BreakpointsSuspend")},
+		{Name: "code-2threads", Files: map[string]string{"MCDbgRun.tla": mod2, "run.cfg": dbgCfg("code", false, pick(tier, 2, 3), "TypeOK", "NoLostWakeup", "ReportedIsSuspended", "BreakpointsSuspend", "StopReleasesAll")},
 			Opt: tlc.Options{Module: "MCDbgRun", Config: "run.cfg", Timeout: 30 * time.Minute}},
 		{Name: "found-lost", Files: map[string]string{"MCDbgRun.tla": mod1, "run.cfg": dbgCfg("found", true, 3, "ExportLost", "NoLostWakeup")},
 			Opt: tlc.Options{Module: "MCDbgRun", Config: "run.cfg", Timeout: 30 * time.Minute, Workers: 1}},
@@ -697,7 +719,7 @@ func C15(r *ev.Run) {
 	}
 	modE := renderDbgMC(evisits, c15ErrLines)
 	jobs = append(jobs,
-		&MCJob{Name: "code-error", Files: map[string]string{"MCDbgRun.tla": modE, "run.cfg": dbgCfg("code", false, cmds, "TypeOK", "NoLostWakeup", "ReportedIsSuspended", "BreakpointsSuspend")},
+		&MCJob{Name: "code-error", Files: map[string]string{"MCDbgRun.tla": modE, "run.cfg": dbgCfg("code", false, cmds, "TypeOK", "NoLostWakeup", "ReportedIsSuspended", "BreakpointsSuspend", "StopReleasesAll")},
 			Opt: tlc.Options{Module: "MCDbgRun", Config: "run.cfg", Timeout: 30 * time.Minute}},
 		&MCJob{Name: "sim-error", Files: map[string]string{"MCDbgRun.tla": modE, "run.cfg": dbgCfg("code", true, 9, "Export")},
 			Opt: tlc.Options{Module: "MCDbgRun", Config: "run.cfg", Timeout: 30 * time.Minute, Workers: 1,
@@ -814,6 +836,9 @@ func C15(r *ev.Run) {
 			r.Case(fmt.Sprintf("transparency/%d/%v/%d", pi, bps, rep), true)
 			replay := map[string]interface{}{"program": src, "breakpoints": bps}
 			switch {
+			case strings.HasPrefix(why, "inconclusive: "):
+				r.Inconclusive(why)
+				return
 			case why != "":
 				stuckRuns++
 				sig := "C15 debugged run does not end / crashes"
